@@ -129,6 +129,10 @@ def check_case(ctx, idx, ops, lines):
 	    Returns a violation description or None. """
 	m = Model()
 	pos = 0
+	stray = [l for l in lines if l.startswith("CORRUPT ")]
+	if stray:
+		return 0, "the scheduler wrote outside its own state (offset %s relative to l1s.tdma_sched)" % stray[0].split()[1]
+	lines = [l for l in lines if not l.startswith("CORRUPT ")]
 
 	def take():
 		nonlocal pos
@@ -501,7 +505,7 @@ def judge(ctx, binary, cases, sub):
 			ctx.inconclusive_because("case %d never ran" % i)
 			continue
 		# the firmware's own diagnostics (puts/printf) are not driver events
-		lines = [l for l in outputs[i] if l[:2] in ("c ", "r ", "n ")]
+		lines = [l for l in outputs[i] if l[:2] in ("c ", "r ", "n ") or l.startswith("CORRUPT ")]
 		res = check_case(ctx, i, ops, lines)
 		ctx.count("cases")
 		if res is not None:
